@@ -104,7 +104,9 @@ def abstract(spec, obs=None):
         a["elems"] = [[0 if cover else wclass(w), (u, v) in spec["ign"] or (u, v) in pct_ignored] for (u, v, w) in spec["edges"]]
     a["conserving"] = conserving(spec)
     k = spec["k"]
-    a["k"] = [0, 1] if k is None else ([0, k] if isinstance(k, int) else [1] + common.qtok(k))
+    a["k"] = ([0, 1] if k is None or isinstance(k, str) else ([2, k] if isinstance(k, bool) else
+              ([0, k] if isinstance(k, int) else [1] + common.qtok(k))))
+    a["has_superset"] = spec.get("superset") is not None and spec["cls"] in ci.HAS_SUPERSET
     edges = {(u, v) for (u, v, _) in spec["edges"]}
     def ingraph(it):
         kd = item_kind(it)
@@ -126,7 +128,7 @@ def abstract(spec, obs=None):
 def tokens(spec, a):
     return "validate " + common.toks(
         ci.CLS_ID[spec["cls"]], len(a["nodes_str"]), a["nodes_str"], a["n_edges"], a["acyclic"], a["has_selfloop"], a["ign_pct"], a["trust_pct"], a["has_source"], a["has_sink"],
-        a["origin"], a["wtype"], len(a["elems"]), a["elems"], a["conserving"], a["k"],
+        a["origin"], a["wtype"], len(a["elems"]), a["elems"], a["conserving"], a["k"], a["has_superset"],
         len(a["cons"]), a["cons"], a["cov"], a["cov_len"], a["len_attr"], len(a["starts"]), a["starts"], len(a["ends"]), a["ends"], len(a["ign"]), a["ign"],
         a["search_enters"])
 
@@ -154,6 +156,14 @@ def finding_key(spec, a, obs):
     """Call-site signature of the known deviation that explains a non-ValueError outcome on an invalid input
     (or an error on a valid one).  None if no listed deviation applies."""
     cls = spec["cls"]; k = spec["k"]
+    sup = spec.get("superset") is not None and cls in ci.HAS_SUPERSET
+    if cls in ci.HAS_K and (isinstance(k, str) or (k is None and spec.get("k_is_none"))) and obs in ("TypeError", "AttributeError"):
+        return "k-models:TypeError:non-numeric-k"
+    k_invalid = isinstance(k, bool) or isinstance(k, (float, str)) or (k is None and spec.get("k_is_none")) or (isinstance(k, int) and k <= 0)
+    if sup and k_invalid and cls in ("kLeastAbsErrors", "kMinPathError") and obs in ("SOLVED", "UNSOLVED", "ACCEPT"):
+        return "kErrDAG:accepted:invalid-k-with-solution_weights_superset"
+    if sup and k is True and cls == "kFlowDecomp" and obs in ("SOLVED", "UNSOLVED", "ACCEPT"):
+        return "kFlowDecomp:accepted:bool-k-with-solution_weights_superset"
     cyc = cls in ci.IS_CYC
     st = [] if spec["origin"] == "node" else spec["starts"]; en = [] if spec["origin"] == "node" else spec["ends"]
     names1 = [x for x in spec["nodes"] if isinstance(x, str) and len(x) == 1]
@@ -337,9 +347,12 @@ def check_case(ctx, stream, cls, idx, viols, spec, a, req, out, r):
             if obs == "SOLVED":
                 what += " — the model claims to be solved"
             ctx.report(what, replay, key=key, concrete=True)
-        if model_dom:
+        if model_dom and not any(v in ("knone", "kstr") for v in viols):
             ctx.report("generator / model mismatch: in_domain_%s is true on an input with violations %s" % (cls, viols), replay, concrete=False)
             return True
+    if any(v in ("knone", "kstr") for v in viols):
+        ctx.count("E2_only_k_kinds", "cases")      # k = None / a string: outside the abstract model, property evaluated only
+        return failed
     # (2) correspondence with the faithful model
     if agrees(model_out, obs):
         ctx.count("E3_validate", "agreements")
